@@ -1131,7 +1131,10 @@ def _pause_window(b, scope, with_reload):
     if b.paused or any(c.blocked for c in b.alive()) or b.removed_users:
         return False
     users = [u["username"] for u in b.cfg["users"]]
-    if scope == "pool":
+    if scope == "pool_u2":
+        scope, target = "pool", "u2"
+        sql, rsql, paused_users = "PAUSE db,u2", "RESUME db,u2", ["u2"]
+    elif scope == "pool":
         target = b.r.choice(users)
         sql, rsql, paused_users = "PAUSE db,%s" % target, "RESUME db,%s" % target, [target]
     else:
@@ -1146,6 +1149,7 @@ def _pause_window(b, scope, with_reload):
     # clients already inside a transaction / a session go on; idle ones are held at their next statement
     cands = [c for c in b.alive() if c.user in paused_users and b.free(c) and not c.removed]
     b.r.shuffle(cands)
+    cands.sort(key=lambda c: not c.readded)      # sessions that survived a remove + re-add of their user first (F36)
     nheld = 0
     for c in cands:
         if c.holding and c.txn != "E":
@@ -1309,6 +1313,9 @@ def _reload_kind(how, w, req=()):
             return False
         _do_reload(b, how, name)
         b.act(name)
+        if how == "readd_user" and any(c.readded and b.outer(c) for c in b.alive()) and b.r.random() < 0.7:
+            # the first statement of a session that survived the removal and the re-adding of its user arrives while paused (F36)
+            _pause_window(b, b.r.choice(["global", "pool_u2"]), False)
         for c in b.alive():
             c.follow = max(c.follow, 2)
         return True
@@ -2291,7 +2298,9 @@ def mon_C14(tr, st):
                 oa = {b: sorted(o["conn"] for o in i.get("open", [])) for b, i in (a.get("backends") or {}).items()}
                 oz = {b: sorted(o["conn"] for o in i.get("open", [])) for b, i in (z.get("backends") or {}).items()}
                 lost = {b: [c for c in oa[b] if c not in oz.get(b, [])] for b in oa}
-                if any(lost.values()) and not any(f["at_op"] <= r["at_op"] for f in tr.t["faults"]):
+                # (connections of pools that an EARLIER reload replaced close whenever their last user lets go: only judged
+                # while the pools of the first configuration are still the registered ones)
+                if any(lost.values()) and not any(f["at_op"] <= r["at_op"] for f in tr.t["faults"]) and r["epoch_before"] == 0:
                     out.append({"kind": "%s_reload_closed_server_connections" % r["how"], "closed": {b: v for b, v in lost.items() if v}})
     # the new pool_mode is in effect for clients that did not hold a server at the reload: population check at quiescent points
     modes = [r for r in tr.t["reloads"] if r["how"] == "pool_mode"]
